@@ -157,7 +157,7 @@ pub fn absent_value(spec: &Spec) -> Option<V> {
                 Leaf::Arg { ty, .. } => env
                     .and_then(|raw| ty.convert(&raw).ok())
                     .map(|v| V::field(i.id, v)),
-                Leaf::Pos { .. } => None,
+                Leaf::Pos { .. } | Leaf::Any { .. } => None,
             }
         }
         Spec::Wrap { w, id, inner } => {
@@ -286,6 +286,8 @@ fn go(spec: &Spec, g: &mut Gen, present: bool, out: &mut Vec<Atom>) -> Option<V>
                     });
                     Some(V::field(i.id, v))
                 }
+                // `any` is outside the derivation grammar (it may take what belongs to others)
+                Leaf::Any { .. } => None,
                 Leaf::Pos { ty, strict, .. } => {
                     let value = g.fresh(*ty);
                     let v = ty.convert(&value).ok()?;
@@ -405,7 +407,13 @@ fn go(spec: &Spec, g: &mut Gen, present: bool, out: &mut Vec<Atom>) -> Option<V>
                 return absent;
             }
             let ix = *g.rng.pick(&cands);
+            let before = out.len();
             let v = go(&xs[ix], g, true, out)?;
+            if out.len() == before && absent.is_some() {
+                // the chosen alternative put nothing on the line: the first alternative that
+                // succeeds on nothing is the one that answers
+                return absent;
+            }
             Some(V::Variant(ix as u32, Box::new(v)))
         }
         Spec::Adj(xs) => {
